@@ -208,6 +208,64 @@ def run_battery(prop, mod, base_keys):
     return out
 
 
+def run_benign(prop, mod, base_keys):
+    """the benign battery (DESIGN 10.8): every behaviour-preserving refactoring under benign/ that touches a crate this property analyses is applied
+    to a scratch copy of /repo; the property's rules must report NO violation key that the unchanged tree does not"""
+    import glob, shutil, subprocess, tempfile, fcntl
+    out = {"refactorings_run": 0, "quiet": [], "alarms": [], "skipped": []}
+    patches = sorted(glob.glob(os.path.join(VERIF, "benign", "rf*.diff")))
+    if not patches:
+        return out
+    crates = set(getattr(mod, "CRATES", None) or [])
+    scratch_root = os.path.join(tempfile.gettempdir(), "verif-scratch")
+    scratch = os.path.join(scratch_root, "repo")
+    os.makedirs(extract.CACHE, exist_ok=True)
+    block = open(os.path.join(extract.CACHE, "battery.lock"), "w")
+    fcntl.flock(block, fcntl.LOCK_EX)
+    try:
+        for pf in patches:
+            name = os.path.basename(pf)[:-5]
+            touched = set(re.findall(r"^\+\+\+ b/crates/([A-Za-z0-9_-]+)/", open(pf).read(), flags=re.M))
+            if crates and not ({t.replace("-", "_") for t in touched} & crates):
+                out["skipped"].append({"refactoring": name, "why": "touches %s, which this property does not analyse" % sorted(touched)})
+                continue
+            shutil.rmtree(scratch, ignore_errors=True)
+            os.makedirs(scratch_root, exist_ok=True)
+            subprocess.run(["rsync", "-a", "--delete", "--exclude", "target", "--exclude", ".git", extract.REPO + "/", scratch + "/"], check=True)
+            r = subprocess.run(["patch", "-p1", "--fuzz=3", "-s", "-i", pf], cwd=scratch, stdout=subprocess.PIPE, stderr=subprocess.STDOUT, text=True)
+            if r.returncode != 0:
+                out["skipped"].append({"refactoring": name, "why": "patch no longer applies to the current tree"})
+                continue
+            try:
+                facts_dir, fhash, ext_s = extract.ensure_facts(scratch, verbose=False)
+            except SystemExit as e:
+                out["skipped"].append({"refactoring": name, "why": "does not compile on the current tree: %s" % e})
+                continue
+            mprog = Program(facts_dir, crates=getattr(mod, "CRATES", None))
+            mctx = Ctx(mprog, prop, "quick")
+            extract.SRC_ROOT[0] = scratch
+            try:
+                mod.run(mctx)
+            finally:
+                extract.SRC_ROOT[0] = None
+            new = sorted({v.key for v in mctx.violations} - set(base_keys))
+            out["refactorings_run"] += 1
+            if new:
+                out["alarms"].append({"refactoring": name, "new_violation_keys": new[:4]})
+                print("benign: %s ALARM (%s)" % (name, new[0]))
+            else:
+                out["quiet"].append(name)
+                print("benign: %s quiet" % name)
+            shutil.rmtree(facts_dir, ignore_errors=True)
+    finally:
+        shutil.rmtree(scratch_root, ignore_errors=True)
+        import hashlib as _h
+        shutil.rmtree(os.path.join(extract.CACHE, "target-" + _h.sha256(scratch.encode()).hexdigest()[:8]), ignore_errors=True)
+        fcntl.flock(block, fcntl.LOCK_UN)
+        block.close()
+    return out
+
+
 def run_property(prop, module_name, argv):
     import argparse
     ap = argparse.ArgumentParser()
@@ -290,6 +348,11 @@ def run_property(prop, module_name, argv):
         battery = run_battery(prop, mod, {v.key for v in ctx.violations})
         if battery["missed"]:
             print("CHECKER-BROKEN property=%s thorough: seeded mutant(s) not reported: %s" % (prop, battery["missed"]))
+            sys.exit(2)
+        benign = run_benign(prop, mod, {v.key for v in ctx.violations})
+        battery["benign"] = benign
+        if benign["alarms"]:
+            print("CHECKER-BROKEN property=%s thorough: alarm on behaviour-preserving refactoring(s): %s" % (prop, [a["refactoring"] for a in benign["alarms"]]))
             sys.exit(2)
     if args.replay:
         with open(args.replay) as f:
